@@ -8,7 +8,12 @@ return, assignment, compound assignment, local declarations with initialiser;
 expressions: + - * & | ^ << >> ! && || comparisons, integer and character
 literals, casts between integer types, parentheses; for a `const char *` parameter s
 (a NUL-terminated string, modelled as `list Z`) also strlen(s) and s[k] with a literal k
-(reading the terminator or beyond the list yields 0).  Anything else raises
+(reading the terminator or beyond the list yields 0).
+`for` loops whose trip count is decided by constants only (the control variable is a local
+initialised with a constant, compared with constants, stepped by ++/--/op= constant and not
+assigned in the body; no break/continue/return/goto in the body) are UNROLLED by evaluating
+the control variable in Python (at most 64 iterations).  Calls of helpers defined in the same
+file whose body is a single `return e;` are inlined by substitution.  Anything else raises
 LeafError (reported by the check as a broken obligation).
 
 Two numeric modes:
@@ -70,6 +75,11 @@ class Tr:
         self.S = "N" if mode == "N" else "Z"
         self.strings = set()
         self.scan = None      # (string name, index variable, Coq name of the scanned character)
+        self.consts = {}      # unrolled loop control variables: name -> current Python value
+        self.subst = {}       # parameters of a helper being inlined: name -> Gallina text
+        self.str_alias = {}   # string parameters of a helper being inlined: name -> caller's string
+        self.loader = None    # name -> FunctionDecl of a function defined in the same file
+        self.depth = 0
 
     # ---- types
     def ubits(self, t):
@@ -128,6 +138,11 @@ class Tr:
             d = n.get("referencedDecl", {})
             if d.get("kind") not in ("ParmVarDecl", "VarDecl"):
                 raise LeafError("reference to %s" % d.get("kind"))
+            if d["name"] in self.consts:
+                v = self.consts[d["name"]]
+                return str(v) if v >= 0 else "(%d)" % v
+            if d["name"] in self.subst:
+                return self.subst[d["name"]]
             return d["name"]
         if k == "UnaryOperator":
             op, a = n["opcode"], self.expr(inner[0])
@@ -156,12 +171,12 @@ class Tr:
                     return "(%s <=? %s)" % (b, a)
                 return "(negb (%s =? %s))" % (a, b)
             return self.arith(op, self.expr(inner[0]), self.expr(inner[1]), qt(n))
-        if k == "CallExpr" and self.mode == "Z":
+        if k == "CallExpr":
             callee = self.strip_casts(inner[0])
-            if callee.get("kind") == "DeclRefExpr" and callee.get("referencedDecl", {}).get("name") == "strlen" \
-                    and len(inner) == 2:
+            if self.mode == "Z" and callee.get("kind") == "DeclRefExpr" and \
+                    callee.get("referencedDecl", {}).get("name") == "strlen" and len(inner) == 2:
                 return "(Z.of_nat (length %s))" % self.string_ref(inner[1])
-            raise LeafError("unsupported call")
+            return self.inline(n)
         if k == "ArraySubscriptExpr" and self.mode == "Z":
             idx = self.strip_casts(inner[1])
             if self.scan and idx.get("kind") == "DeclRefExpr" and \
@@ -180,9 +195,149 @@ class Tr:
 
     def string_ref(self, n):
         n = self.strip_casts(n)
-        if n.get("kind") == "DeclRefExpr" and n.get("referencedDecl", {}).get("name") in self.strings:
-            return n["referencedDecl"]["name"]
+        if n.get("kind") == "DeclRefExpr":
+            name = n.get("referencedDecl", {}).get("name")
+            name = self.str_alias.get(name, name)
+            if name in self.strings:
+                return name
         raise LeafError("expected a string parameter")
+
+    def inline(self, n):
+        """call of a helper defined in the same file whose body is a single `return e;`"""
+        inner = n.get("inner", [])
+        callee = self.strip_casts(inner[0])
+        if callee.get("kind") != "DeclRefExpr" or self.loader is None:
+            raise LeafError("unsupported call")
+        name = callee.get("referencedDecl", {}).get("name")
+        if self.depth > 8:
+            raise LeafError("call nesting too deep at %s" % name)
+        fn = self.loader(name)
+        parms = [c for c in fn.get("inner", []) if c.get("kind") == "ParmVarDecl"]
+        body = [c for c in fn.get("inner", []) if c.get("kind") == "CompoundStmt"]
+        ss = [x for x in (body[0].get("inner", []) if body else []) if x.get("kind") != "NullStmt"]
+        if len(ss) != 1 or ss[0].get("kind") != "ReturnStmt" or not ss[0].get("inner"):
+            raise LeafError("helper %s is not a single return expression" % name)
+        args = inner[1:]
+        if len(args) != len(parms):
+            raise LeafError("argument count mismatch calling %s" % name)
+        new_subst, new_alias = {}, {}
+        for p_, a in zip(parms, args):
+            if qt(p_).replace(" ", "") == "constchar*":
+                new_alias[p_["name"]] = self.string_ref(a)
+            else:
+                self.check_type(qt(p_))
+                e = self.expr(a)
+                if self.ubits(qt(p_)) is not None and self.mode == "Z":
+                    e = self.wrap(e, qt(p_))
+                new_subst[p_["name"]] = e
+        saved = (self.subst, self.str_alias, self.consts)
+        self.subst, self.str_alias, self.consts = new_subst, new_alias, {}
+        self.depth += 1
+        try:
+            return self.expr(ss[0]["inner"][0])
+        finally:
+            self.depth -= 1
+            self.subst, self.str_alias, self.consts = saved
+
+    # ---- loops with a constant trip count
+    def const_eval(self, n, env):
+        k = n.get("kind")
+        inner = n.get("inner", [])
+        if k in ("ParenExpr", "ConstantExpr", "ImplicitCastExpr", "CStyleCastExpr"):
+            return self.const_eval(inner[0], env)
+        if k in ("IntegerLiteral", "CharacterLiteral"):
+            return int(n["value"])
+        if k == "DeclRefExpr":
+            name = n.get("referencedDecl", {}).get("name")
+            if name in env:
+                return env[name]
+            if name in self.consts:
+                return self.consts[name]
+            raise LeafError("loop control depends on the non-constant %s" % name)
+        if k == "UnaryOperator" and n["opcode"] in ("-", "+", "!"):
+            v = self.const_eval(inner[0], env)
+            return {"-": -v, "+": v, "!": int(not v)}[n["opcode"]]
+        if k == "BinaryOperator":
+            op = n["opcode"]
+            a, b = self.const_eval(inner[0], env), self.const_eval(inner[1], env)
+            table = {"+": lambda: a + b, "-": lambda: a - b, "*": lambda: a * b, "<<": lambda: a << b,
+                     ">>": lambda: a >> b, "&": lambda: a & b, "|": lambda: a | b, "^": lambda: a ^ b,
+                     "<": lambda: int(a < b), "<=": lambda: int(a <= b), ">": lambda: int(a > b),
+                     ">=": lambda: int(a >= b), "==": lambda: int(a == b), "!=": lambda: int(a != b),
+                     "&&": lambda: int(bool(a) and bool(b)), "||": lambda: int(bool(a) or bool(b))}
+            if op not in table or (op in ("<<", ">>") and not 0 <= b < 64):
+                raise LeafError("unsupported operator %s in a loop control expression" % op)
+            return table[op]()
+        raise LeafError("loop control expression of kind %s" % k)
+
+    def fit(self, v, t):
+        t = t.replace("const ", "").strip()
+        if t in UNSIGNED_BITS:
+            return v % (1 << UNSIGNED_BITS[t])
+        if t in SIGNED_BITS:
+            b = SIGNED_BITS[t]
+            if not -(1 << (b - 1)) <= v < (1 << (b - 1)):
+                raise LeafError("signed loop variable overflows")
+            return v
+        raise LeafError("loop variable of type %s" % t)
+
+    def assigns(self, n, var):
+        """does the subtree assign to var, or leave the loop body early?"""
+        k = n.get("kind")
+        if k in ("BreakStmt", "ContinueStmt", "ReturnStmt", "GotoStmt"):
+            return True
+        if k in ("CompoundAssignOperator",) or (k == "BinaryOperator" and n.get("opcode") == "=") or \
+                (k == "UnaryOperator" and n.get("opcode") in ("++", "--", "&")):
+            t = self.strip_casts(n["inner"][0])
+            if t.get("kind") == "DeclRefExpr" and t.get("referencedDecl", {}).get("name") == var:
+                return True
+        return any(self.assigns(c, var) for c in n.get("inner", []) if isinstance(c, dict))
+
+    def unroll_for(self, s):
+        inner = s.get("inner", [])
+        if len(inner) != 5:
+            raise LeafError("unexpected shape of a for statement")
+        init, _cv, cond, inc, body = inner
+        if init.get("kind") == "DeclStmt" and len(init.get("inner", [])) == 1 and init["inner"][0].get("inner"):
+            d = init["inner"][0]
+            var, vtype, v = d["name"], qt(d), self.const_eval(d["inner"][0], {})
+        elif init.get("kind") == "BinaryOperator" and init.get("opcode") == "=" and \
+                self.strip_casts(init["inner"][0]).get("kind") == "DeclRefExpr":
+            t = self.strip_casts(init["inner"][0])
+            var, vtype, v = t["referencedDecl"]["name"], qt(t), self.const_eval(init["inner"][1], {})
+        else:
+            raise LeafError("for loop without a constant initialisation of its control variable")
+        if not cond or not inc or not cond.get("kind") or not inc.get("kind"):
+            raise LeafError("for loop without condition or step")
+        if self.assigns(body, var):
+            raise LeafError("loop body assigns its control variable or leaves the loop early")
+        v = self.fit(v, vtype)
+        out, n_iter = [], 0
+        while self.const_eval(cond, {var: v}):
+            n_iter += 1
+            if n_iter > 64:
+                raise LeafError("loop does not end within 64 iterations")
+            out.append({"kind": "_Bind", "var": var, "value": v})
+            out.append(body)
+            k = inc.get("kind")
+            tgt = self.strip_casts(inc["inner"][0]) if inc.get("inner") else {}
+            if tgt.get("kind") != "DeclRefExpr" or tgt.get("referencedDecl", {}).get("name") != var:
+                raise LeafError("loop step does not update the control variable")
+            if k == "UnaryOperator" and inc.get("opcode") in ("++", "--"):
+                v = v + 1 if inc["opcode"] == "++" else v - 1
+            elif k == "CompoundAssignOperator":
+                c = self.const_eval(inc["inner"][1], {var: v})
+                op = inc["opcode"][:-1]
+                if op not in ("+", "-", "*", "<<", ">>") or (op in ("<<", ">>") and not 0 <= c < 64):
+                    raise LeafError("unsupported loop step %s" % inc["opcode"])
+                v = {"+": v + c, "-": v - c, "*": v * c, "<<": v << c, ">>": v >> c}[op]
+            elif k == "BinaryOperator" and inc.get("opcode") == "=":
+                v = self.const_eval(inc["inner"][1], {var: v})
+            else:
+                raise LeafError("unsupported loop step")
+            v = self.fit(v, vtype)
+        out.append({"kind": "_Bind", "var": var, "value": v})
+        return out
 
     def lit_fits(self, lit, dst):
         v = int(lit["value"])
@@ -263,23 +418,34 @@ class Tr:
         k = s.get("kind")
         if k == "CompoundStmt":
             return self.block(list(s.get("inner", [])) + rest)
+        if k == "_Bind":
+            self.consts[s["var"]] = s["value"]
+            return self.block(rest)
+        if k == "ForStmt":
+            return self.block(self.unroll_for(s) + rest)
         if k == "ReturnStmt":
             return self.expr(s["inner"][0])
         if k == "IfStmt":
             inner = s["inner"]
             c = self.cond(inner[0])
+            snap = dict(self.consts)
             if len(inner) == 3:
                 t = self.block([inner[1]] + ([] if self.returns(inner[1]) else rest))
+                self.consts = dict(snap)
                 e = self.block([inner[2]] + ([] if self.returns(inner[2]) else rest))
                 return "(if %s\n   then %s\n   else %s)" % (c, t, e)
             if not self.returns(inner[1]):
                 raise LeafError("if without else whose body does not return")
-            return "(if %s\n   then %s\n   else %s)" % (c, self.block([inner[1]]), self.block(rest))
+            t = self.block([inner[1]])
+            self.consts = dict(snap)
+            return "(if %s\n   then %s\n   else %s)" % (c, t, self.block(rest))
         if k == "CompoundAssignOperator":
             lhs, rhs = s["inner"]
             if lhs.get("kind") != "DeclRefExpr":
                 raise LeafError("assignment to a non-variable")
             name = lhs["referencedDecl"]["name"]
+            if name in self.consts or name in self.subst:
+                raise LeafError("assignment to a loop control variable or an inlined parameter")
             op = s["opcode"][:-1]
             if self.ubits(qt(lhs)) != self.ubits(qt(s)) or self.ubits(qt(lhs)) is None and self.mode == "N":
                 raise LeafError("compound assignment with a type change")
@@ -287,8 +453,8 @@ class Tr:
             return "(let %s := %s in\n %s)" % (name, e, self.block(rest))
         if k == "BinaryOperator" and s.get("opcode") == "=":
             lhs, rhs = s["inner"]
-            if lhs.get("kind") != "DeclRefExpr":
-                raise LeafError("assignment to a non-variable")
+            if lhs.get("kind") != "DeclRefExpr" or lhs["referencedDecl"]["name"] in self.consts:
+                raise LeafError("assignment to a non-variable or a loop control variable")
             return "(let %s := %s in\n %s)" % (lhs["referencedDecl"]["name"], self.expr(rhs), self.block(rest))
         if k == "DeclStmt":
             out = None
@@ -307,8 +473,9 @@ class Tr:
         raise LeafError("unsupported statement kind %s" % k)
 
 
-def translate(fdecl, gname, mode):
+def translate(fdecl, gname, mode, loader=None):
     tr = Tr(mode)
+    tr.loader = loader
     params, body = [], None
     for c in fdecl.get("inner", []):
         if c.get("kind") == "ParmVarDecl":
@@ -330,30 +497,38 @@ def translate(fdecl, gname, mode):
         gname, " ".join("(%s : %s)" % (p, t) for p, t in params), S, e, S)
 
 
-def translate_scan_down(fdecl, gname):
-    """Recognises, among the top-level statements of the function, the descending scan
+def translate_scan_down(fdecl, gname, loader=None):
+    """Recognises the descending scan for the last character of a `const char *` parameter S
+    satisfying a test C, in one of these shapes, and returns
+    `Definition gname (c : Z) : bool := C[S[P] := c]`:
 
-        int L = (int)strlen(S);  ...  int P = L - 1;
-        while (P >= 0) { if (C) { break; } --P; }
+      (1) in the function itself, among its top-level statements
+            int L = (int)strlen(S); ... int P = L - 1;
+            while (P >= 0) { if (C) break; --P; }          (or: for (; P >= 0; --P) { if (C) break; })
+      (2) through a helper defined in the same file
+            int L = (int)strlen(S); ... int P = H(S, L - 1);
+          where H(const char *s, int from) is
+            int i; for (i = from; i >= 0; --i) { if (C) return i; } return -1;
+          or  int i = from; while (i >= 0) { if (C) break; --i; } return i;
 
-    for a `const char *` parameter S, where C mentions only S[P] and literals, and returns
-    `Definition gname (c : Z) : bool := C[S[P] := c]`.  Meaning of the recognised loop (part of the
-    trusted translator): afterwards P is the index of the LAST character of S satisfying C, -1 if
-    there is none.  Any other shape (another loop, strrchr, an ascending scan ...) raises LeafError."""
+    C may mention only S[P] and literals.  Meaning of the recognised shapes (part of the trusted
+    translator): P is the index of the LAST character of S satisfying C, -1 if there is none.
+    Any other shape (strrchr, an ascending scan, another start index ...) raises LeafError."""
     tr = Tr("Z")
-    body = None
-    for c in fdecl.get("inner", []):
-        if c.get("kind") == "ParmVarDecl" and qt(c).replace(" ", "") == "constchar*":
-            tr.strings.add(c["name"])
-        elif c.get("kind") == "CompoundStmt":
-            body = c
-    if body is None:
+    tr.loader = loader
+
+    def strings_of(fd):
+        return set(c["name"] for c in fd.get("inner", [])
+                   if c.get("kind") == "ParmVarDecl" and qt(c).replace(" ", "") == "constchar*")
+
+    def body_of(fd):
+        for c in fd.get("inner", []):
+            if c.get("kind") == "CompoundStmt":
+                return [x for x in c.get("inner", []) if x.get("kind") != "NullStmt"]
         raise LeafError("no body")
-    stmts = body.get("inner", [])
 
     def var_decl(st):
-        if st.get("kind") == "DeclStmt" and len(st.get("inner", [])) == 1 and st["inner"][0].get("kind") == "VarDecl" \
-                and st["inner"][0].get("inner"):
+        if st.get("kind") == "DeclStmt" and len(st.get("inner", [])) == 1 and st["inner"][0].get("kind") == "VarDecl":
             return st["inner"][0]
         return None
 
@@ -361,10 +536,66 @@ def translate_scan_down(fdecl, gname):
         n = tr.strip_casts(n)
         return n.get("referencedDecl", {}).get("name") if n.get("kind") == "DeclRefExpr" else None
 
+    def lit(n, v):
+        n = tr.strip_casts(n)
+        if n.get("kind") == "UnaryOperator" and n.get("opcode") == "-" and v < 0:
+            return lit(n["inner"][0], -v)
+        return n.get("kind") == "IntegerLiteral" and int(n["value"]) == v
+
+    def unbrace(n):
+        return [x for x in n.get("inner", []) if x.get("kind") != "NullStmt"] if n.get("kind") == "CompoundStmt" else [n]
+
+    def ge0(cond, P):
+        c0 = tr.strip_casts(cond)
+        return c0.get("kind") == "BinaryOperator" and c0.get("opcode") == ">=" and ref_name(c0["inner"][0]) == P \
+            and lit(c0["inner"][1], 0)
+
+    def dec1(n, P):
+        return n.get("kind") == "UnaryOperator" and n.get("opcode") == "--" and ref_name(n["inner"][0]) == P
+
+    def test_of(ifst, leave):
+        """if (C) { <leave> } without else -> C"""
+        if ifst.get("kind") != "IfStmt" or len(ifst["inner"]) != 2:
+            raise LeafError("scan loop body is not a single `if (C) ...`")
+        tb = unbrace(ifst["inner"][1])
+        if len(tb) != 1 or not leave(tb[0]):
+            raise LeafError("scan loop: unexpected action in the branch")
+        return ifst["inner"][0]
+
+    def is_break(n):
+        return n.get("kind") == "BreakStmt"
+
+    def loop_test(loop, P, leave):
+        """descending loop over P with body `if (C) leave;` -> C, or None if `loop` is no such loop"""
+        k = loop.get("kind")
+        if k == "WhileStmt":
+            cond, wbody = loop["inner"][0], loop["inner"][1]
+            if not ge0(cond, P):
+                raise LeafError("scan loop condition is not `%s >= 0`" % P)
+            bs = unbrace(wbody)
+            if len(bs) != 2 or not dec1(bs[1], P):
+                raise LeafError("scan loop body is not `if (C) ...; --%s;`" % P)
+            return test_of(bs[0], leave)
+        if k == "ForStmt" and len(loop.get("inner", [])) == 5:
+            init, _cv, cond, inc, fbody = loop["inner"]
+            if not (cond.get("kind") and ge0(cond, P) and inc.get("kind") and dec1(inc, P)):
+                raise LeafError("scan loop is not `for (...; %s >= 0; --%s)`" % (P, P))
+            bs = unbrace(fbody)
+            if len(bs) != 1:
+                raise LeafError("scan loop body is not a single `if (C) ...`")
+            return test_of(bs[0], leave), init
+        return None
+
+    def emit(C, S, P):
+        tr.scan = (S, P, "c")
+        return "Definition %s (c : Z) : bool :=\n  %s%%Z.\n" % (gname, tr.cond(C))
+
+    tr.strings = strings_of(fdecl)
+    stmts = body_of(fdecl)
     lens = {}      # int variable -> string whose strlen it holds
     for st in stmts:
         d = var_decl(st)
-        if d is None:
+        if d is None or not d.get("inner"):
             continue
         init = d["inner"][0]
         while init.get("kind") in ("CStyleCastExpr", "ImplicitCastExpr", "ParenExpr"):
@@ -373,34 +604,76 @@ def translate_scan_down(fdecl, gname):
             sname = ref_name(init["inner"][1])
             if sname in tr.strings:
                 lens[d["name"]] = sname
-    for i in range(len(stmts) - 1):
-        d, w = var_decl(stmts[i]), stmts[i + 1]
-        if d is None or w.get("kind") != "WhileStmt":
+
+    def len_minus_1(n):
+        """L - 1 -> the string S with L = strlen(S), else None"""
+        n = tr.strip_casts(n)
+        if n.get("kind") == "BinaryOperator" and n.get("opcode") == "-" and ref_name(n["inner"][0]) in lens \
+                and lit(n["inner"][1], 1):
+            return lens[ref_name(n["inner"][0])]
+        return None
+
+    for i, st in enumerate(stmts):
+        d = var_decl(st)
+        if d is None or not d.get("inner"):
             continue
         init = tr.strip_casts(d["inner"][0])
-        if not (init.get("kind") == "BinaryOperator" and init.get("opcode") == "-"
-                and ref_name(init["inner"][0]) in lens
-                and tr.strip_casts(init["inner"][1]).get("kind") == "IntegerLiteral"
-                and int(tr.strip_casts(init["inner"][1])["value"]) == 1):
-            continue
-        P, S = d["name"], lens[ref_name(init["inner"][0])]
-        cond, wbody = w["inner"][0], w["inner"][1]
-        c0 = tr.strip_casts(cond)
-        if not (c0.get("kind") == "BinaryOperator" and c0.get("opcode") == ">=" and ref_name(c0["inner"][0]) == P
-                and tr.strip_casts(c0["inner"][1]).get("kind") == "IntegerLiteral"
-                and int(tr.strip_casts(c0["inner"][1])["value"]) == 0):
-            raise LeafError("scan loop condition is not `%s >= 0`" % P)
-        bs = wbody.get("inner", []) if wbody.get("kind") == "CompoundStmt" else [wbody]
-        if len(bs) != 2 or bs[0].get("kind") != "IfStmt" or len(bs[0]["inner"]) != 2:
-            raise LeafError("scan loop body is not `if (C) break; --%s;`" % P)
-        then = bs[0]["inner"][1]
-        tb = then.get("inner", []) if then.get("kind") == "CompoundStmt" else [then]
-        if len(tb) != 1 or tb[0].get("kind") != "BreakStmt":
-            raise LeafError("scan loop: the branch does not just break")
-        dec = bs[1]
-        if not (dec.get("kind") == "UnaryOperator" and dec.get("opcode") == "--" and ref_name(dec["inner"][0]) == P):
-            raise LeafError("scan loop: index is not decremented by one")
-        tr.scan = (S, P, "c")
-        e = tr.cond(bs[0]["inner"][0])
-        return "Definition %s (c : Z) : bool :=\n  %s%%Z.\n" % (gname, e)
+        # shape (1): int P = L - 1; <loop>
+        S = len_minus_1(init)
+        if S is not None and i + 1 < len(stmts):
+            r = loop_test(stmts[i + 1], d["name"], is_break)
+            if r is not None:
+                C = r[0] if isinstance(r, tuple) else r
+                if isinstance(r, tuple) and r[1].get("kind"):
+                    raise LeafError("scan for-loop re-initialises its index")
+                return emit(C, S, d["name"])
+        # shape (2): int P = H(S, L - 1)
+        if init.get("kind") == "CallExpr" and len(init.get("inner", [])) == 3 and loader is not None:
+            hname = ref_name(init["inner"][0])
+            S = ref_name(init["inner"][1])
+            if hname and S in tr.strings and len_minus_1(init["inner"][2]) == S:
+                H = loader(hname)
+                hp = [c for c in H.get("inner", []) if c.get("kind") == "ParmVarDecl"]
+                if len(hp) != 2 or qt(hp[0]).replace(" ", "") != "constchar*" or qt(hp[1]).replace("const ", "").strip() != "int":
+                    raise LeafError("scan helper %s does not have the signature (const char *, int)" % hname)
+                hs, hfrom = hp[0]["name"], hp[1]["name"]
+                hb = body_of(H)
+                tr.strings = {hs}
+                # int i; for (i = from; i >= 0; --i) { if (C) return i; } return -1;
+                if len(hb) == 3 and var_decl(hb[0]) is not None and hb[1].get("kind") == "ForStmt" \
+                        and hb[2].get("kind") == "ReturnStmt":
+                    I = var_decl(hb[0])["name"]
+
+                    def ret_i(n):
+                        return n.get("kind") == "ReturnStmt" and n.get("inner") and ref_name(n["inner"][0]) == I
+                    r = loop_test(hb[1], I, ret_i)
+                    finit = r[1]
+                    ok_init = (finit.get("kind") == "BinaryOperator" and finit.get("opcode") == "="
+                               and ref_name(finit["inner"][0]) == I and ref_name(finit["inner"][1]) == hfrom)
+                    if var_decl(hb[0]).get("inner"):
+                        ok_init = ok_init or (not finit.get("kind") and ref_name(var_decl(hb[0])["inner"][0]) == hfrom)
+                    if not ok_init or not lit(hb[2]["inner"][0], -1):
+                        raise LeafError("scan helper %s: not `for (i = from; i >= 0; --i) ... return -1`" % hname)
+                    return emit(r[0], hs, I)
+                # for (int i = from; i >= 0; --i) { if (C) return i; } return -1;
+                if len(hb) == 2 and hb[0].get("kind") == "ForStmt" and hb[1].get("kind") == "ReturnStmt":
+                    finit = hb[0]["inner"][0]
+                    dI = var_decl(finit)
+                    if dI is None or not dI.get("inner") or ref_name(dI["inner"][0]) != hfrom or not lit(hb[1]["inner"][0], -1):
+                        raise LeafError("scan helper %s: not `for (int i = from; i >= 0; --i) ... return -1`" % hname)
+                    I = dI["name"]
+
+                    def ret_i2(n):
+                        return n.get("kind") == "ReturnStmt" and n.get("inner") and ref_name(n["inner"][0]) == I
+                    r = loop_test(hb[0], I, ret_i2)
+                    return emit(r[0], hs, I)
+                # int i = from; while (i >= 0) { if (C) break; --i; } return i;
+                if len(hb) == 3 and var_decl(hb[0]) is not None and hb[1].get("kind") == "WhileStmt" \
+                        and hb[2].get("kind") == "ReturnStmt":
+                    dI = var_decl(hb[0])
+                    I = dI["name"]
+                    if not dI.get("inner") or ref_name(dI["inner"][0]) != hfrom or ref_name(hb[2]["inner"][0]) != I:
+                        raise LeafError("scan helper %s: not `int i = from; while ...; return i`" % hname)
+                    return emit(loop_test(hb[1], I, is_break), hs, I)
+                raise LeafError("scan helper %s has an unrecognised shape" % hname)
     raise LeafError("no descending separator scan found")
